@@ -204,6 +204,18 @@ impl Prop for C16 {
       calls.push(json!({"src": format!("{}([1u64 2u64 3u64])", fname), "expect": f(&vec![1, 2, 3]), "args": [1, 2, 3], "prelude": "xs := [70u64 80u64 90u64]"}));
       out.push(Case { id: format!("function;array;{}", name), cell: format!("function;array;{}", name), input: json!({"mode": "arms", "def": def, "calls": calls, "as_match": false, "has_wild": true}) });
     }
+    // array patterns over EVERY numeric element kind (the matcher slices the matrix with one arm per kind), as function arms
+    // and as match arms, arguments written inline and held in variables
+    for k in crate::refm::REAL_KINDS.iter().filter(|k| **k != "r64") {
+      for pat in ["tail-first", "prefix2", "ends", "head", "last", "tail-whole"] {
+        for (vi, v) in [vec![7i64, 8, 9], vec![4, 5], vec![1, 2, 3, 4, 5], vec![6], vec![8, 7, 5, 4]].iter().enumerate() {
+          for form in ["function", "function-var", "match"] {
+            if tier == Tier::Quick && (vi + pat.len() + k.len() + form.len() + _seed as usize) % 3 != 0 { continue; }
+            out.push(Case { id: format!("arraykind;kind={};pat={};form={};v={}", k, pat, form, vi), cell: format!("arraykind;kind={};pat={}", k, pat), input: json!({"mode": "arraykind", "kind": k, "pat": pat, "form": form, "v": v}) });
+          }
+        }
+      }
+    }
     // enum variants with payload: exhaustive without wildcard, every arm order
     for (i, order) in permutations(&[":red(v) => 100u64 + v", ":green(v) => 200u64 + v", ":blue => 300u64"]).into_iter().enumerate() {
       let mut calls = Vec::new();
@@ -296,6 +308,56 @@ impl Prop for C16 {
           }
         }
         if evaluated > 0 { Outcome::held().num("calls", evaluated as f64) } else { Outcome::trivial() }
+      }
+      "arraykind" => {
+        let k = case.input["kind"].as_str().unwrap();
+        let pat = case.input["pat"].as_str().unwrap();
+        let form = case.input["form"].as_str().unwrap();
+        let v: Vec<i64> = serde_json::from_value(case.input["v"].clone()).unwrap();
+        let n = v.len();
+        // (pattern, body, expected value when the pattern matches)
+        let want: Option<i64> = match pat {
+          "tail-first" => if n >= 2 { Some(v[1]) } else { None },
+          "prefix2" => if n >= 3 { Some(v[0] * 10 + v[2]) } else { None },
+          "ends" => if n >= 2 { Some(v[0] * 10 + v[n - 1]) } else { None },
+          "head" => if n >= 1 { Some(v[0] + 1) } else { None },
+          "last" => if n >= 1 { Some(v[n - 1] + 1) } else { None },
+          _ => if n >= 2 { Some(v[1..].iter().sum::<i64>()) } else { None },
+        };
+        // ([x | rest] with a one-element vector leaves an empty rest: the arm's body is then not evaluable - skipped)
+        let Some(want) = want else { return Outcome::trivial(); };
+        let build = |kk: &str| -> (String, CVal) {
+          let sc = |x: i64| match kk { "f64" => Sc::f64(x as f64), "f32" => Sc::f32(x as f32), _ => crate::refm::small_val(kk, x) };
+          let l = |x: i64| lit(&CVal::S(kk.to_string(), sc(x))).unwrap();
+          let arm = match pat {
+            "tail-first" => "[x | rest] => rest[1]".to_string(),
+            "prefix2" => format!("[a, b | rest] => a * {} + rest[1]", l(10)),
+            "ends" => format!("[lo … hi] => lo * {} + hi", l(10)),
+            "head" => format!("[h …] => h + {}", l(1)),
+            "last" => format!("[… y] => y + {}", l(1)),
+            _ => "[x | rest] => stats/sum/column(rest)".to_string(),
+          };
+          let litv = format!("[{}]", v.iter().map(|x| l(*x)).collect::<Vec<_>>().join(" "));
+          let src = match form {
+            "function" => format!("fk(xs<[{k}]>) => <{k}>\n  | {arm}\n  | * => {z}.\n\nfk({a})", k = kk, arm = arm, z = l(99), a = litv),
+            "function-var" => format!("fk(xs<[{k}]>) => <{k}>\n  | {arm}\n  | * => {z}.\n\nvv := {a}\nfk(vv)", k = kk, arm = arm, z = l(99), a = litv),
+            _ => format!("r := {a}?\n  | {arm}\n  | * => {z}.", arm = arm, z = l(99), a = litv),
+          };
+          (src, CVal::S(kk.to_string(), sc(want)))
+        };
+        let (src, wantv) = build(k);
+        let mut s = Sess::new();
+        let res = s.eval(&src);
+        let same = |r: &Ev, w: &CVal| match r { Ev::Ok(g) => g == w || (g.is_matrix() && g.elems().len() == 1 && &g.elems()[0] == w), _ => false };
+        if same(&res, &wantv) { return Outcome::held().num("calls", 1.0); }
+        if let Ev::Panic(p) = &res { return Outcome::violated("panic-escaped", format!("{}\n{}", src, p)); }
+        if let Ev::ParseErr(m) = &res { return Outcome::inconclusive("harness-parse", format!("{}: {}", src, m)); }
+        // the u64 twin of the same text decides whether the construct as written is supported at all
+        let (tsrc, twant) = build("u64");
+        let mut t = Sess::new();
+        if k == "u64" || same(&t.eval(&tsrc), &twant) {
+          Outcome::violated(if res.is_ok() { "wrong-arm-or-binding" } else { "error-instead-of-value" }, format!("{}\nreturned {} expected {}", src, res.show(), wantv.show()))
+        } else { Outcome::trivial().tag(format!("construct-unsupported:{}:{}", pat, form)) }
       }
       "broadcast" => {
         let mut s = Sess::new();
